@@ -322,6 +322,17 @@ func aggBattery(c *Ctx, a *aggMembers, valueSemantics bool) {
 					om.Add(key<<16 | edgeVal16(r))
 				}
 			}
+			// ... and values no member has inside chunks that members do have (those chunks shrink under AndAny)
+			for _, v := range x.M.Intervals() {
+				if r.Chance(0.5) {
+					for k := 0; k < 1+r.Intn(3); k++ {
+						y := (v.Lo &^ 0xFFFF) | r.Range(0, 65535)
+						if !u.Contains(y) {
+							om.Add(y)
+						}
+					}
+				}
+			}
 			origin, es := buildForm(r, om, formsNoZC[r.Intn(len(formsNoZC))])
 			if es == "" {
 				origin.B.SetCopyOnWrite(true)
@@ -337,6 +348,7 @@ func aggBattery(c *Ctx, a *aggMembers, valueSemantics bool) {
 					rc.Add(uint32(y))
 					rm.Add(y)
 				}
+				c.Count("andany_cow_receiver_with_private_chunks")
 				c.Step("AndAny: receiver = copy-on-write clone of an origin with privately written chunks .AndAny(all members)")
 				if c.Guard("AndAny", func() { rc.AndAny(arg...) }) {
 					return
